@@ -1,23 +1,23 @@
 CONSTANTS
-  Clients <- MCClients
-  Addr <- MCAddr
-  SentBits = {0, 16, 24, 32}
-  Scopes = {0, 8, 20, 24, 32}
+  Clients <- AudAllowClients
+  Addr <- AudAddr
+  SentBits = {0, 24, 32}
+  Scopes = {0, 16, 24}
   FwdMax = 24
   Floor = 24
   Enabled = TRUE
   MaxSteps = 3
   Fwd6Max = 56
   Floor6 = 48
-  Allow = {}
-  Mapped = {}
-  CDs = {FALSE}
+  Allow <- AudAllow
+  Mapped = {2, 3, 4}
+  CDs = {FALSE, TRUE}
   UpCd = {"echo"}
   Dnssec = FALSE
-  Bug = "none"
+  Bug = "cacheSeesMapped"
 INIT Init
 NEXT Next
 VIEW View
 INVARIANTS TypeOK EcsLeavesOnlyIfAllowed NeverTooSpecific
-PROPERTIES ScopedAudience
+PROPERTIES ScopedAudience CdPartition
 CHECK_DEADLOCK FALSE
